@@ -221,10 +221,55 @@ def gen_lex():
     return "\n".join(L) + "\n"
 
 
+def str_list(xs):
+    return lean_list([lean_str(x) for x in xs])
+
+
+def gen_parser_tables():
+    cp = importlib.import_module("pycparser.c_parser")
+    cg = importlib.import_module("pycparser.c_generator")
+    L = ["/-! GENERATED by tools/extract.py from pycparser/c_parser.py and c_generator.py — do not edit. -/",
+         "namespace PycModel.Generated"]
+
+    def table(name, obj):
+        L.append("def %s : List String := %s" % (name, str_list(sorted(obj))))
+
+    L.append("def binaryPrecedence : List (String × Nat) := " + lean_list(
+        ["(%s, %d)" % (lean_str(k), v) for k, v in sorted(cp._BINARY_PRECEDENCE.items())]))
+    L.append("def genPrecedence : List (String × Nat) := " + lean_list(
+        ["(%s, %d)" % (lean_str(k), v) for k, v in sorted(cg.CGenerator.precedence_map.items())]))
+    table("assignmentOps", cp._ASSIGNMENT_OPS)
+    table("storageClass", cp._STORAGE_CLASS)
+    table("functionSpec", cp._FUNCTION_SPEC)
+    table("typeQualifier", cp._TYPE_QUALIFIER)
+    table("typeSpecSimple", cp._TYPE_SPEC_SIMPLE)
+    table("declStart", cp._DECL_START)
+    table("exprStart", cp._EXPR_START)
+    table("intConst", cp._INT_CONST)
+    table("floatConst", cp._FLOAT_CONST)
+    table("charConst", cp._CHAR_CONST)
+    table("stringLiteral", cp._STRING_LITERAL)
+    table("wstrLiteral", cp._WSTR_LITERAL)
+    table("startsExpression", cp._STARTS_EXPRESSION)
+    table("startsStatement", cp._STARTS_STATEMENT)
+    # spelling of each binary / assignment operator token (kind -> literal), from the lexer
+    lx = importlib.import_module("pycparser.c_lexer")
+    lit = {e.tok_type: e.literal for e in lx._fixed_tokens}
+    L.append("def opSpelling : List (String × String) := " + lean_list(
+        ["(%s, %s)" % (lean_str(k), lean_str(lit.get(k, "?"))) for k in sorted(set(cp._BINARY_PRECEDENCE) | set(cp._ASSIGNMENT_OPS))]))
+    # generator: which classes have a visit_ method
+    from pycparser import c_ast
+    classes = sorted(n for n, c in vars(c_ast).items() if inspect.isclass(c) and issubclass(c, c_ast.Node) and c is not c_ast.Node)
+    L.append("def genVisitMethods : List String := " + str_list([n for n in classes if hasattr(cg.CGenerator, "visit_" + n)]))
+    L.append("def genStmtSemiClasses : List String := " + str_list([]))
+    L.append("end PycModel.Generated")
+    return "\n".join(L) + "\n"
+
+
 def main():
     changed = []
     errors = {}
-    for name, fn in [("LexTables.lean", gen_lex)]:
+    for name, fn in [("LexTables.lean", gen_lex), ("ParserTables.lean", gen_parser_tables)]:
         try:
             if write_if_changed(name, fn()):
                 changed.append(name)
